@@ -17,10 +17,13 @@ From SV Require Import C11.Model.
 Import ListNotations.
 Open Scope Z_scope.
 
-Inductive ord := OLt | OEq | OGt | OUn.
+(* OId: equal, in a type that defines no order (None, functions, ranges, structs, dicts, sets);
+   OUn: unequal and unordered *)
+Inductive ord := OLt | OEq | OGt | OUn | OId.
 
 Definition ord_of (c : comparison) : ord := match c with Lt => OLt | Eq => OEq | Gt => OGt end.
 Definition flip (o : ord) : ord := match o with OLt => OGt | OGt => OLt | o => o end.
+Definition is_equal (o : ord) : bool := match o with OEq | OId => true | _ => false end.
 
 (* extended rationals with NaN on top *)
 Inductive xnum := XNaN | XInf (neg : bool) | XQ (q : Q).
@@ -56,14 +59,14 @@ Fixpoint lex3 (a b : list Z) : ord :=
   | x :: a', y :: b' => match x ?= y with Lt => OLt | Gt => OGt | Eq => lex3 a' b' end
   end.
 
-Definition same_or_un (b : bool) : ord := if b then OEq else OUn.
+Definition same_or_un (b : bool) : ord := if b then OId else OUn.
 
 Definition atom_cmp3 (a b : atom) : ord :=
   match num_of a, num_of b with
   | Some x, Some y => xcmp x y
   | _, _ =>
       match a, b with
-      | ANone, ANone => OEq
+      | ANone, ANone => OId
       | ABool x, ABool y => ord_of (Z.compare (b2i x) (b2i y))
       | AStr x, AStr y => lex3 x y
       | ABytes x, ABytes y => lex3 x y
@@ -84,21 +87,20 @@ Fixpoint seq3 (c : value -> value -> option ord) (l m : list value) : option ord
   | x :: l', y :: m' =>
       match c x y with
       | None => None
-      | Some OEq => seq3 c l' m'
-      | Some o => Some o
+      | Some OUn => Some OUn
+      | Some o => if is_equal o then seq3 c l' m' else Some o
       end
   end.
 
 (* struct fields: same names, pairwise equal values *)
 Fixpoint fields3 (c : value -> value -> option ord) (f g : list (list Z * value)) : option ord :=
   match f, g with
-  | [], [] => Some OEq
+  | [], [] => Some OId
   | (n, x) :: f', (m, y) :: g' =>
       if negb (bytes_eqb n m) then Some OUn
       else match c x y with
            | None => None
-           | Some OEq => fields3 c f' g'
-           | Some _ => Some OUn
+           | Some o => if is_equal o then fields3 c f' g' else Some OUn
            end
   | _, _ => Some OUn
   end.
@@ -107,20 +109,19 @@ Fixpoint fields3 (c : value -> value -> option ord) (f g : list (list Z * value)
 Definition range_same (s1 st1 n1 s2 st2 n2 : Z) : bool :=
   (n1 =? n2) && ((n1 =? 0) || ((s1 =? s2) && ((n1 =? 1) || (st1 =? st2)))).
 
-Definition key_eq (k k' : atom) : bool := match atom_cmp3 k k' with OEq => true | _ => false end.
+Definition key_eq (k k' : atom) : bool := is_equal (atom_cmp3 k k').
 
 (* dict: every key of x has an equal key in y whose value is equal *)
 Fixpoint dict_incl3 (c : value -> value -> option ord) (xs y : list (atom * value)) : option ord :=
   match xs with
-  | [] => Some OEq
+  | [] => Some OId
   | (k, xv) :: r =>
       match find (fun kv => key_eq k (fst kv)) y with
       | None => Some OUn
       | Some (_, yv) =>
           match c xv yv with
           | None => None
-          | Some OEq => dict_incl3 c r y
-          | Some _ => Some OUn
+          | Some o => if is_equal o then dict_incl3 c r y else Some OUn
           end
       end
   end.
@@ -136,10 +137,7 @@ Fixpoint cmp3 (d : nat) (x y : value) : option ord :=
       | VRange s1 st1 n1, VRange s2 st2 n2 => Some (same_or_un (range_same s1 st1 n1 s2 st2 n2))
       | VStruct c f, VStruct c' g =>
           if negb (Nat.eqb (length f) (length g)) then Some OUn
-          else match atom_cmp3 c c' with
-               | OEq => fields3 (cmp3 d') f g
-               | _ => Some OUn
-               end
+          else if is_equal (atom_cmp3 c c') then fields3 (cmp3 d') f g else Some OUn
       | VDict a, VDict b =>
           if negb (Nat.eqb (length a) (length b)) then Some OUn else dict_incl3 (cmp3 d') a b
       | VSet a, VSet b =>
@@ -155,6 +153,7 @@ Definition interp (op : tok) (o : ord) : res bool :=
   | OEq => Ok (match op with EQL | LE | GE => true | _ => false end)
   | OGt => Ok (match op with NEQ | GT | GE => true | _ => false end)
   | OUn => match op with EQL => Ok false | NEQ => Ok true | _ => ErrUnord end
+  | OId => match op with EQL => Ok true | NEQ => Ok false | _ => ErrUnord end
   end.
 
 (* ---- the value universe of the property and the depth guard ----
@@ -265,3 +264,22 @@ Definition spec_minmax_ok (ismax : bool) (keys : list value) (out : option nat) 
         forallb (fun a => (if ismax then klt a e else klt e a)) (firstn p keys)
     end
   else true.
+
+(* ---- the ordered classes of the property: int and float together, string,
+   bytes, bool (and time, duration), and tuples / lists of one class ---- *)
+Inductive cls := CNum | CStr | CBytes | CBool | CTime | CDur | CTuple (c : cls) | CList (c : cls).
+
+Fixpoint has_cls (c : cls) (v : value) : bool :=
+  match c, v with
+  | CNum, VAtom (AInt _) | CNum, VAtom (AFloat _) => true
+  | CStr, VAtom (AStr _) => true
+  | CBytes, VAtom (ABytes _) => true
+  | CBool, VAtom (ABool _) => true
+  | CTime, VAtom (ATime _) => true
+  | CDur, VAtom (ADur _) => true
+  | CTuple c', VTuple l => forallb (has_cls c') l
+  | CList c', VList l => forallb (has_cls c') l
+  | _, _ => false
+  end.
+
+Definition is_ordered (o : ord) : bool := match o with OLt | OEq | OGt => true | _ => false end.
